@@ -66,8 +66,60 @@ def mk_notifier(handler, target):
                               dispatcher=_dispatch)
 
 
-def algebra_harness(op, n):
+def mk_maintainer(handler, target):
+    return ObserverChangeNotifier(observer_handler=_oh, event_factory=lambda *a: a, prevent_event=lambda e: False, graph=_GRAPH,
+                                  handler=handler, target=target, dispatcher=_dispatch)
+
+
+def _oh(**kw):
+    pass
+
+
+_GRAPH = object()
+
+
+def maintainer_algebra_harness(op, n):
+    """maintainers (ObserverChangeNotifier) are kept as a multiset: add_to appends; remove_from takes out the FIRST entry that
+    is the same registration - same handler, graph, dispatcher and the very same target OBJECT (owners that merely compare
+    equal are different owners) - and raises NotifierNotFound if there is none, changing nothing"""
     def harness(ex):
+        target, twin_target = Target(), Target()          # equal by value, distinct objects
+        h = lambda e: None
+        h2 = lambda e: None
+        kinds = [ex.choice("entry%d" % i, 3) for i in range(n)]      # 0: the same registration, 1: value-equal target, 2: other handler
+        entries = [mk_maintainer(h, target) if k_ == 0 else mk_maintainer(h, twin_target) if k_ == 1 else mk_maintainer(h2, target)
+                   for k_ in kinds]
+        before = list(entries)
+        obs = Observable(entries)
+        me = mk_maintainer(h, target)
+        exc = None
+        try:
+            (me.add_to if op == "add" else me.remove_from)(obs)
+        except NotifierNotFound:
+            exc = "NotifierNotFound"
+        after = obs.lst
+        if op == "add":
+            ex.check(exc is None and len(after) == n + 1 and after[-1] is me and all(a is b for a, b in zip(after, before)),
+                     "add_to appends the maintainer and touches nothing else")
+        else:
+            firsts = [i for i, k_ in enumerate(kinds) if k_ == 0]
+            if not firsts:
+                ex.check(exc == "NotifierNotFound" and len(after) == n and all(a is b for a, b in zip(after, before)),
+                         "removing a maintainer that is not registered raises NotifierNotFound and changes nothing "
+                         "(a registration of an owner that merely compares equal is somebody else's)")
+            else:
+                want = before[:firsts[0]] + before[firsts[0] + 1:]
+                ex.check(exc is None and len(after) == n - 1 and all(a is b for a, b in zip(after, want)),
+                         "remove_from takes out exactly the first entry of the same registration")
+        return {"exc": exc, "len": len(after)}
+    return harness
+
+
+def algebra_harness(op, n, kind="event"):
+    mk_notifier_ = mk_notifier
+
+    def harness(ex):
+        mk_notifier = mk_notifier_
         target, other_target = Target(), Target()
         h = lambda e: None
         h2 = lambda e: None
@@ -349,6 +401,71 @@ def weak_harness(ex):
         _eh.pop_exception_handler()
 
 
+def decorated_harness(ex):
+    """registrations made by the @observe decorator are counted like any other: a decorated method reached through several base
+    classes (diamond) is registered ONCE per instance; one removal detaches it, the next raises NotifierNotFound; subclasses
+    overriding the method replace the registration"""
+    from traits.api import observe
+    errors = []
+    _eh.push_exception_handler(handler=lambda e: errors.append(e), reraise_exceptions=False)
+    try:
+        calls = []
+        shape = ex.choice("hierarchy", 4)
+
+        class Base(HasTraits):
+            v = Int(0)
+            w = Int(0)
+
+            @observe("v")
+            def watch(self, event):
+                calls.append(("Base", event.new))
+
+        class L(Base):
+            pass
+
+        class R(Base):
+            pass
+
+        if shape == 0:
+            cls = Base
+        elif shape == 1:
+            cls = L
+        elif shape == 2:
+            cls = type("D", (L, R), {})                       # diamond: watch reached through both L and R
+        else:
+            class R2(Base):
+                @observe("w")
+                def watch(self, event):                       # overrides: observes w instead
+                    calls.append(("R2", event.new))
+            cls = type("D2", (L, R2), {})                     # MRO: D2, L, R2, Base -> R2.watch wins
+        o = cls()
+        overridden = shape == 3
+        o.v = 1
+        o.w = 1
+        want = [("R2", 1)] if overridden else [("Base", 1)]
+        ex.check(calls == want, "a decorated method is registered exactly once per instance, whatever the inheritance graph")
+        exc = None
+        try:
+            o.observe(o.watch, "w" if overridden else "v", remove=True)
+        except NotifierNotFound:
+            exc = "NotifierNotFound"
+        ex.check(exc is None, "the decorator's registration can be removed like any other")
+        del calls[:]
+        o.v = 2
+        o.w = 2
+        ex.check(calls == [], "one removal detaches the decorated method completely")
+        exc = None
+        try:
+            o.observe(o.watch, "w" if overridden else "v", remove=True)
+        except NotifierNotFound:
+            exc = "NotifierNotFound"
+        ex.check(exc == "NotifierNotFound", "one removal too many raises NotifierNotFound")
+        ex.check(errors == [], "no handler raised")
+        return {"shape": shape}
+    finally:
+        _eh.pop_exception_handler()
+
+
 def multi_maintainer_alien(v):
     """known-finding helper: the history reaches a failing hook-up (op 7) while >= 2 maintainers sit on Root.a"""
     reg = {}
@@ -377,10 +494,16 @@ def obligations(tier, build):
             obs.append(Obligation("algebra/%s/n=%d" % (op, n), algebra_harness(op, n),
                                   bounds={"other entries": n, "count of the equal entry": "unbounded Int >= 1", "position": "symbolic"},
                                   assumes=ASSUMPTIONS, leverage="the reference count (unbounded): inductive step for every n"))
+            obs.append(Obligation("algebra-maintainer/%s/n=%d" % (op, n), maintainer_algebra_harness(op, n),
+                                  bounds={"entries": n, "entry kinds": "same registration / value-equal target / other handler, at every position",
+                                          "notifier class": "ObserverChangeNotifier"},
+                                  leverage="choice feasibility only (no arithmetic: a multiset, not a counter)"))
     K = 2 if tier == "quick" else 3
     obs.append(Obligation("history/k=%d" % K, history_harness(K),
                           bounds={"history length": K, "handlers": 2, "expressions": EXPRS, "failing expressions": BAD_ALL},
                           leverage="choice feasibility only", max_paths=200000, path_wall_s=60))
+    obs.append(Obligation("decorated", decorated_harness, bounds={"hierarchies": ["plain", "subclass", "diamond", "diamond with override"]},
+                          leverage="choice feasibility only"))
     obs.append(Obligation("weak", weak_harness, bounds={"expressions": EXPRS, "collected": ["handler owner", "detached leaf", "root"]},
                           leverage="choice feasibility only"))
     return obs
